@@ -109,7 +109,8 @@ static scpi_result_t generic_handler(scpi_t *ctx) {
             else { if (n == 8) SCPI_ResultUInt8Base(ctx, (uint8_t) v, base); else if (n == 16) SCPI_ResultUInt16Base(ctx, (uint16_t) v, base); else if (n == 32) SCPI_ResultUInt32Base(ctx, (uint32_t) v, (int8_t) base); else SCPI_ResultUInt64Base(ctx, v, (int8_t) base); }
         } else if (!strcmp(o->name, "rF")) {
             if (o->a[0]) { double d; memcpy(&d, &o->u, 8); SCPI_ResultDouble(ctx, d); } else { float f; uint32_t b = (uint32_t) o->u; memcpy(&f, &b, 4); SCPI_ResultFloat(ctx, f); }
-        } else if (!strcmp(o->name, "rB")) SCPI_ResultBool(ctx, o->a[0] ? TRUE : FALSE);
+        } else if (!strcmp(o->name, "rN")) { long long kk; for (kk = 0; kk < o->a[0]; kk++) SCPI_ResultInt32(ctx, (int32_t) (kk % 10)); }   /* a loop of result calls */
+        else if (!strcmp(o->name, "rB")) SCPI_ResultBool(ctx, o->a[0] ? TRUE : FALSE);
         else if (!strcmp(o->name, "rT")) { o->data[o->dlen] = 0; SCPI_ResultText(ctx, (char *) o->data); }
         else if (!strcmp(o->name, "rC")) SCPI_ResultCharacters(ctx, (char *) o->data, o->dlen);
         else if (!strcmp(o->name, "rK")) SCPI_ResultArbitraryBlock(ctx, o->isnull ? NULL : o->data, o->isnull ? 0 : o->dlen);   /* "N": an empty block held by a NULL pointer */
